@@ -289,6 +289,13 @@ impl Gen {
             1 => ops.push(InOp::DisallowOwn),
             2 => ops.push(InOp::SubscribeOwn),
             3 => ops.push(InOp::DropOwn),
+            4 | 5 => {
+                // also twice in one callback: the second call is on a token that is already gone
+                ops.push(InOp::UnsubscribeOther);
+                if rng.chance(1, 2) {
+                    ops.push(InOp::UnsubscribeOther);
+                }
+            }
             _ => {}
         }
         ops
@@ -509,10 +516,14 @@ impl Gen {
         let shallow = base + 3;
         let mut deep = shallow;
         let mut next = base + 4;
-        let len = 2 + rng.below(5);
+        // variant: the deep alternative has the *same value* as the shallow one (all identity maps,
+        // mostly exactly one level taller): switching to it makes the bind's input taller without
+        // changing it, so the bind's closure does not re-run when the bind is observed again
+        let same_value = rng.chance(1, 2);
+        let len = if same_value { 2 + rng.below(3) / 2 + rng.below(2) * rng.below(2) } else { 2 + rng.below(5) };
         let mut prev = b;
         for i in 0..len {
-            self.plan.push_back(Action::Create(Kind::Map(if i == 0 { F1::Lin(1, 2) } else { F1::Ident }, prev)));
+            self.plan.push_back(Action::Create(Kind::Map(if i == 0 && !same_value { F1::Lin(1, 2) } else { F1::Ident }, prev)));
             prev = next;
             deep = next;
             next += 1;
@@ -521,12 +532,17 @@ impl Gen {
         self.plan.push_back(Action::Create(Kind::Bind(sel, vec![Rc::new(Tm::Ref(shallow)), Rc::new(Tm::Ref(deep))])));
         let input = next;
         next += 1;
+        // an earlier dependant of the input: the bind's lhs-change node is then not the parent that
+        // gets recomputed directly when the input changes
+        self.plan.push_back(Action::Create(Kind::Map(F1::Lin(1, 1), input)));
+        let sibling = next;
+        next += 1;
         self.plan.push_back(Action::Create(Kind::Bind(
             input,
             vec![Rc::new(Tm::MapCap(F2::Add, Rc::new(Tm::Ref(k)), 0)), Rc::new(Tm::MapCap(F2::MulAdd(2), Rc::new(Tm::Ref(k)), 0))],
         )));
         let bind = next;
-        self.plan.push_back(Action::Observe(input)); // obase
+        self.plan.push_back(Action::Observe(if rng.chance(1, 2) { sibling } else { input })); // obase
         self.plan.push_back(Action::Observe(bind)); // obase+1
         self.plan.push_back(Action::Stabilise);
         self.plan.push_back(Action::Adopt(dbase)); // node bind+1
@@ -535,11 +551,17 @@ impl Gen {
         self.plan.push_back(Action::DropObs(obase + 1));
         self.plan.push_back(Action::Stabilise);
         self.plan.push_back(Action::Write(vbase, WriteOp::Set(1)));
-        if rng.chance(1, 2) {
+        if rng.chance(1, 2) && !same_value {
             self.plan.push_back(Action::Write(vbase + 1, WriteOp::UpdateAdd(1)));
         }
         self.plan.push_back(Action::Stabilise);
         self.plan.push_back(Action::Observe(bind));
+        if same_value {
+            // observed again with an unchanged (but taller) input; then the input and the kept
+            // node's other input change in one round
+            self.plan.push_back(Action::Stabilise);
+            self.plan.push_back(Action::Write(vbase + 1, WriteOp::UpdateAdd(1)));
+        }
         self.plan.push_back(Action::Write(vbase + 2, WriteOp::UpdateAdd(1)));
         self.plan.push_back(Action::Stabilise);
         self.plan.push_back(Action::Write(vbase, WriteOp::Set(0)));
